@@ -28,6 +28,9 @@ func (r *Rand) Uint64() uint64 {
 	return z ^ (z >> 31)
 }
 
+// Fork derives an independent stream from the current state without advancing it.
+func (r *Rand) Fork(id uint64) *Rand { return &Rand{s: mix(r.s ^ mix(id+0x7654321))} }
+
 func (r *Rand) Uint32() uint32 { return uint32(r.Uint64() >> 32) }
 
 // Intn returns a value in [0,n). n must be > 0.
